@@ -64,7 +64,7 @@ Section Flat.
 
   Lemma sstep_flat st o : sstep c st o = (final c st (flat1 o), events c st (flat1 o)).
   Proof.
-    destruct o as [k hs he rt sync|lk sync|i t sh|i]; cbn [sstep flat1].
+    destruct o as [k hs he rt sync|lk sync|i t sh ct|i]; cbn [sstep flat1].
     - apply app_request_sync_flat; auto using all_routed_route.
     - apply lib_request_sync_flat; assumption.
     - rewrite events_cons, final_cons. cbn [step]. unfold events, final. cbn.
@@ -491,11 +491,11 @@ Qed.
    request, and nothing is left registered. *)
 Example nonvacuous_sync :
   let pre := [SApp KGList true true no_retry []] in
-  let sync := [mkndel 2 TResult ShPlain; mkndel 2 TResult ShPlain; mkndel 2 TGet ShSPing] in
-  let post := [SLib LKFetchCtl [mkndel 3 TError ShPlain; mkndel 3 TResult ShPlain];
-               SApp KPing true true no_retry [mkndel 1 TError ShPlain; mkndel 4 TResult ShPlain];
-               SDeliver 2 TResult ShPlain; SDeliver 2 TError ShPlain; SDeliver 3 TError ShPlain;
-               SDeliver 1 TResult ShPlain] in
+  let sync := [nd 2 TResult ShPlain; nd 2 TResult ShPlain; nd 2 TGet ShSPing] in
+  let post := [SLib LKFetchCtl [nd 3 TError ShPlain; nd 3 TResult ShPlain];
+               SApp KPing true true no_retry [nd 1 TError ShPlain; nd 4 TResult ShPlain];
+               SDeliver 2 TResult ShPlain no_content; SDeliver 2 TError ShPlain no_content; SDeliver 3 TError ShPlain no_content;
+               SDeliver 1 TResult ShPlain no_content] in
   let h := pre ++ SApp KLastSeen true true no_retry sync :: post in
   cfg_ok cfg_repaired = true /\ all_routed cfg_repaired = true /\
   next (sfinal cfg_repaired init pre) = 2%N /\
@@ -519,8 +519,8 @@ Qed.
 Example nonvacuous_sync_retry :
   let rt := mkretry false true 1 in
   let r := mkreq 1 (OApp KGLeave) in
-  let h := [SApp KGLeave true true rt [mkndel 1 TError ShPlain; mkndel 1 TResult ShPlain];
-            SDeliver 1 TResult ShPlain] in
+  let h := [SApp KGLeave true true rt [nd 1 TError ShPlain; nd 1 TResult ShPlain];
+            SDeliver 1 TResult ShPlain no_content] in
   app_cbs 1 (sevents cfg_repaired init h) = [(Error, r); (Success, r)] /\
   app_cbs 1 (nth 0 (snd (srun cfg_repaired init h)) []) = [(Error, r); (Success, r)] /\
   armed_after 1 true true (Some rt) (flatten h) = None /\
@@ -547,11 +547,11 @@ Definition refutes_sync (c : cfg) (k : akind) (sync : list ndel) (post : list so
 
 Lemma register_after_send_refuted :
   let r := mkreq 1 (OApp KLastSeen) in
-  let nested := SApp KLastSeen true true no_retry [mkndel 1 TResult ShPlain] in
+  let nested := SApp KLastSeen true true no_retry [nd 1 TResult ShPlain] in
   (* the reply that arrives during the hand-down reaches NO callback (all three variants) *)
-  refutes_sync cfg_regafter_both KLastSeen [mkndel 1 TResult ShPlain] [] /\
-  refutes_sync cfg_regafter_proto KLastSeen [mkndel 1 TError ShPlain] [] /\
-  refutes_sync cfg_regafter_iface KGList [mkndel 1 TResult ShPlain] [] /\
+  refutes_sync cfg_regafter_both KLastSeen [nd 1 TResult ShPlain] [] /\
+  refutes_sync cfg_regafter_proto KLastSeen [nd 1 TError ShPlain] [] /\
+  refutes_sync cfg_regafter_iface KGList [nd 1 TResult ShPlain] [] /\
   app_cbs 1 (sevents cfg_regafter_both init [nested]) = [] /\
   (* in the interface-only variant it is treated as an ordinary stanza instead *)
   In (EvTop 1) (sevents cfg_regafter_iface init [nested]) /\
@@ -561,22 +561,22 @@ Lemma register_after_send_refuted :
   lookup 1 (app (sfinal cfg_regafter_iface init [nested])) <> None /\
   (* ... and a REPLAYED reply then does invoke the callback *)
   app_cbs 1 (snd (sstep cfg_regafter_both (sfinal cfg_regafter_both init [nested])
-                        (SDeliver 1 TResult ShPlain))) = [(Success, r)] /\
+                        (SDeliver 1 TResult ShPlain no_content))) = [(Success, r)] /\
   app_cbs 1 (snd (sstep cfg_regafter_proto (sfinal cfg_regafter_proto init [nested])
-                        (SDeliver 1 TError ShPlain))) = [(Error, r)] /\
+                        (SDeliver 1 TError ShPlain no_content))) = [(Error, r)] /\
   (* library level: key fetch answered during the hand-down: no closure runs, stale entry, the
      replay runs it; the keep-alive ping's pong is lost the same way *)
-  lib_cbs 1 (sevents cfg_regafter_proto init [SLib LKFetchCtl [mkndel 1 TError ShPlain]]) = [] /\
-  lookup 1 (regs (sfinal cfg_regafter_proto init [SLib LKFetchCtl [mkndel 1 TError ShPlain]]) LCtl)
+  lib_cbs 1 (sevents cfg_regafter_proto init [SLib LKFetchCtl [nd 1 TError ShPlain]]) = [] /\
+  lookup 1 (regs (sfinal cfg_regafter_proto init [SLib LKFetchCtl [nd 1 TError ShPlain]]) LCtl)
     <> None /\
-  lib_cbs 1 (sevents cfg_regafter_proto init [SLib LKFetchCtl [mkndel 1 TError ShPlain];
-                                              SDeliver 1 TError ShPlain])
+  lib_cbs 1 (sevents cfg_regafter_proto init [SLib LKFetchCtl [nd 1 TError ShPlain];
+                                              SDeliver 1 TError ShPlain no_content])
     = [(Error, mkreq 1 (OLib LKFetchCtl))] /\
-  iface_evs 1 (sevents cfg_regafter_proto init [SLib LKPing [mkndel 1 TResult ShPlain]]) = [] /\
+  iface_evs 1 (sevents cfg_regafter_proto init [SLib LKPing [nd 1 TResult ShPlain]]) = [] /\
   (* with the order of the code as it is, the same histories are fine *)
-  app_cbs 1 (sevents cfg_repaired init [nested; SDeliver 1 TResult ShPlain]) = [(Success, r)] /\
+  app_cbs 1 (sevents cfg_repaired init [nested; SDeliver 1 TResult ShPlain no_content]) = [(Success, r)] /\
   app_cbs 1 (snd (sstep cfg_repaired (sfinal cfg_repaired init [nested])
-                        (SDeliver 1 TResult ShPlain))) = [] /\
+                        (SDeliver 1 TResult ShPlain no_content))) = [] /\
   lookup 1 (app (sfinal cfg_repaired init [nested])) = None.
 Proof.
   repeat split; try (cbn; intuition discriminate); vm_compute; try discriminate; try reflexivity;
@@ -625,3 +625,60 @@ Proof.
     - unfold lib_request. rewrite E2. reflexivity. }
   rewrite S. destruct (step c2 st o). rewrite IH. reflexivity.
 Qed.
+
+(* ------------------------------------------------------------------ the content of a stanza *)
+
+(* The registries and the callbacks depend on the tag, the id and the type of an incoming iq (and
+   the receive handlers on the two facts in [shape]) -- on NOTHING else it carries: not on an
+   <error> child, its code / text / backoff attributes, further children or attributes.  Any two
+   histories that agree up to the content of the delivered stanzas (deferred or from inside a
+   send) produce the same per-op events and the same final state, for ANY table.  So every
+   theorem about [srun] / [sevents] / [sfinal] quantifies over all such contents, and "answered"
+   means: a result/error iq with the id arrived, whatever it says. *)
+Lemma deliver_all_erase c ds : forall st,
+  deliver_all c st (map erase_nd ds) = deliver_all c st ds.
+Proof.
+  induction ds as [|d ds IH]; intro st; [reflexivity|].
+  cbn [map deliver_all erase_nd nd nid ntyp nshape].
+  destruct (deliver c st (nid d) (ntyp d) (nshape d)) as [st1 ev1]. rewrite IH. reflexivity.
+Qed.
+
+Lemma sstep_erase c st o : sstep c st (erase o) = sstep c st o.
+Proof.
+  destruct o as [k hs he rt sync|lk sync|i t sh ct|i]; cbn [erase sstep]; try reflexivity.
+  - unfold app_request_sync. destruct (app_route c k) as [l s e|l|]; try reflexivity;
+      rewrite deliver_all_erase; reflexivity.
+  - unfold lib_request_sync. destruct (lib_route c lk) as [l [s e]].
+    rewrite deliver_all_erase. reflexivity.
+Qed.
+
+Theorem reply_content_irrelevant_thm : forall c h st, srun c st (map erase h) = srun c st h.
+Proof.
+  intros c h. induction h as [|o h IH]; intro st; [reflexivity|].
+  cbn [map srun]. rewrite sstep_erase. destruct (sstep c st o) as [st1 ev]. rewrite IH. reflexivity.
+Qed.
+
+Corollary same_up_to_content_thm : forall c h1 h2 st,
+  map erase h1 = map erase h2 -> srun c st h1 = srun c st h2.
+Proof.
+  intros c h1 h2 st E.
+  rewrite <- (reply_content_irrelevant_thm c h1), <- (reply_content_irrelevant_thm c h2), E.
+  reflexivity.
+Qed.
+
+(* non-vacuity: an error carrying <error code="406" text="not-acceptable" backoff="3600"/>, its
+   replay and a later result for the same id, vs the same history with a bare error -- same
+   events, one error callback, nothing registered afterwards (the shape of seeded C08-8 would
+   fire the error callback twice and the success callback once, and keep both entries) *)
+Example nonvacuous_content :
+  let backoff := mkcontent [] [([101;114;114;111;114]%N,
+                               [([99;111;100;101], [52;48;54]);
+                                ([98;97;99;107;111;102;102], [51;54;48;48])])]%N in
+  let h ct := [SApp KLastSeen true true no_retry [];
+               SDeliver 1 TError ShPlain ct; SDeliver 1 TError ShPlain ct;
+               SDeliver 1 TResult ShPlain ct] in
+  srun cfg_repaired init (h backoff) = srun cfg_repaired init (h no_content) /\
+  app_cbs 1 (sevents cfg_repaired init (h backoff)) = [(Error, mkreq 1 (OApp KLastSeen))] /\
+  lookup 1 (app (sfinal cfg_repaired init (h backoff))) = None /\
+  lookup 1 (regs (sfinal cfg_repaired init (h backoff)) LPresence) = None.
+Proof. vm_compute. repeat split. Qed.
